@@ -454,3 +454,54 @@ Qed.
 End Chain.
 
 Print Assumptions x86_store_ok.
+
+(* ---------- the hypotheses are satisfiable: five variables (two blocks) into a fresh heap ---------- *)
+Definition ex5_val (k : N) : Z := 100 + Z.of_N k.
+Definition ex5_state : xstate :=
+  fold_left (fun s k => rset s (k + 4)%N (Some (ex5_val k)))
+            [0; 1; 2; 3; 4; 5; 6; 7; 8; 9]%N
+            (rset (rset (rset (init_state []) 0 (Some ex_sp)) HEAP (Some HEAP_BASE)) FREE (Some (HEAP_BASE + 64))).
+Definition ex5_store : ctx :=
+  [mkb ("a"%string, 0%N) Ext I64; mkb ("b"%string, 1%N) Prd (Decl ("T"%string, 0%N)); mkb ("c"%string, 2%N) Ext I64;
+   mkb ("d"%string, 3%N) Cns (Decl ("T"%string, 0%N)); mkb ("e"%string, 4%N) Ext I64].
+Definition ex5_code : list xcode := match x_store ex5_store [] 0 with Ok (cs, _) => cs | Err _ => [] end.
+
+Example x86_store_example :
+  let a := abs_heap (HEAP_BASE + 64) ex5_state in
+  let res := Heap.alloc_object (fsts ex5_val 0 ex5_store) a in
+  exists lc', x_store ex5_store [] 0 = Ok (ex5_code, lc') /\
+  fsts ex5_val 0 ex5_store = [0; 102; 0; 106; 0] /\
+  fst res = HEAP_BASE + 64 /\ Heap.frontier (snd res) = HEAP_BASE + 192 /\
+  exists s', steps (mk_image ex5_code) 1 ex5_state (pnth 1 (List.length ex5_code)) s' /\
+     st_eqB (abs_heap (HEAP_BASE + 192) s') (snd res) /\ rget s' 4%N = Some (HEAP_BASE + 64).
+Proof.
+  intros a res.
+  assert (Hx : exists lc', x_store ex5_store [] 0 = Ok (ex5_code, lc')) by (eexists; vm_compute; reflexivity).
+  destruct Hx as [lc' Hx]. exists lc'. split; [exact Hx|]. split; [reflexivity|].
+  assert (Ef : fst res = HEAP_BASE + 64) by (vm_compute; reflexivity).
+  assert (EF : Heap.frontier (snd res) = HEAP_BASE + 192) by (vm_compute; reflexivity).
+  split; [exact Ef|]. split; [exact EF|].
+  destruct (mk_image_code_labels ex5_code) as [HC HL]; [apply nodupb_sound; vm_compute; reflexivity|].
+  assert (Bk : forall k, 0 <= k <= 3 -> is_blk (HEAP_BASE + 64 * k)).
+  { intros k Hk. exists k. split; [lia|]. split; [reflexivity|]. unfold HEAP_BASE, HEAP_SIZE. lia. }
+  destruct (x86_store_ok (mk_image ex5_code) 1 ex5_store [] 0 ex5_code lc' ex5_state ex_sp (HEAP_BASE + 64) ex5_val Hx ltac:(discriminate) HC HL)
+    as (s' & ST & EQ & Rr & _).
+  - split; [vm_compute; reflexivity|]. repeat split; vm_compute; easy.
+  - intros i b Hi. destruct i as [|[|[|[|[|i]]]]]; cbn in Hi; try (destruct i; discriminate); inversion Hi; subst b;
+      (split; [vm_compute; reflexivity|intros _; vm_compute; reflexivity]).
+  - change (fsts ex5_val (List.length (@nil binding)) ex5_store) with [0; 102; 0; 106; 0].
+    unfold alloc_object_pre. split.
+    + split; [exact (Bk 0 ltac:(lia))|]. split; [vm_compute; discriminate|]. split.
+      * intros _. exact (Bk 1 ltac:(lia)).
+      * intros _ H. exfalso. apply H. vm_compute. reflexivity.
+    + cbn [List.length chain_pre]. unfold Heap.butlastn at 1. cbn [List.length Nat.sub firstn]. split.
+      * split; [|split; [|split]].
+        -- replace (Heap.heap _) with (HEAP_BASE + 64 * 1) by (vm_compute; reflexivity). apply Bk. lia.
+        -- vm_compute. discriminate.
+        -- intros _. replace (Heap.free _) with (HEAP_BASE + 64 * 2) by (vm_compute; reflexivity). apply Bk. lia.
+        -- intros _ H. exfalso. apply H. vm_compute. reflexivity.
+      * unfold Heap.butlastn. cbn [List.length Nat.sub firstn chain_pre]. exact I.
+  - exists s'. change (st_eqB (abs_heap (Heap.frontier (snd res)) s') (snd res)) in EQ.
+    change (lget s' ex_sp (tpos 0) = Some (fst res)) in Rr. rewrite EF in EQ. rewrite Ef in Rr. auto.
+Qed.
+Print Assumptions x86_store_example.
